@@ -197,6 +197,35 @@ pub fn op_ix(a: &[&str]) -> String {
                 &d,
             ))
         }
+        ["fromprim", v] => {
+            // every integer-to-variant entry point of the two enums (num_traits::FromPrimitive): exactly 0..=12 map
+            use num_traits::FromPrimitive;
+            let Ok(v) = v.parse::<i128>() else { return "bad-op".into() };
+            let mut outs: Vec<Option<ProofInstruction>> = vec![];
+            if let Ok(x) = u8::try_from(v) { outs.push(ProofInstruction::from_u8(x)); }
+            if let Ok(x) = u16::try_from(v) { outs.push(ProofInstruction::from_u16(x)); }
+            if let Ok(x) = u32::try_from(v) { outs.push(ProofInstruction::from_u32(x)); }
+            if let Ok(x) = u64::try_from(v) { outs.push(ProofInstruction::from_u64(x)); outs.push(ProofInstruction::from_usize(x as usize)); }
+            if let Ok(x) = u128::try_from(v) { outs.push(ProofInstruction::from_u128(x)); }
+            if let Ok(x) = i8::try_from(v) { outs.push(ProofInstruction::from_i8(x)); }
+            if let Ok(x) = i16::try_from(v) { outs.push(ProofInstruction::from_i16(x)); }
+            if let Ok(x) = i32::try_from(v) { outs.push(ProofInstruction::from_i32(x)); }
+            if let Ok(x) = i64::try_from(v) { outs.push(ProofInstruction::from_i64(x)); outs.push(ProofInstruction::from_isize(x as isize)); }
+            outs.push(ProofInstruction::from_i128(v));
+            let mut touts: Vec<Option<ProofType>> = vec![];
+            if let Ok(x) = u8::try_from(v) { touts.push(ProofType::from_u8(x)); }
+            if let Ok(x) = u32::try_from(v) { touts.push(ProofType::from_u32(x)); }
+            if let Ok(x) = u64::try_from(v) { touts.push(ProofType::from_u64(x)); }
+            if let Ok(x) = i64::try_from(v) { touts.push(ProofType::from_i64(x)); }
+            touts.push(ProofType::from_i128(v));
+            let i0 = outs[0];
+            if outs.iter().any(|o| *o != i0) { return format!("variant-mismatch:instruction:{:?}", outs) }
+            let t0 = touts[0];
+            if touts.iter().any(|o| *o != t0) { return format!("variant-mismatch:type:{:?}", touts) }
+            let ik = i0.and_then(|i| (0..13).find(|k| instruction_by_index(*k) == Some(i)));
+            let tk = t0.and_then(|t| (0..13).find(|k| proof_type_by_index(*k) == Some(t)));
+            format!("{}:{}", ik.map(|k| k.to_string()).unwrap_or("none".into()), tk.map(|k| k.to_string()).unwrap_or("none".into()))
+        }
         ["type", h] => {
             let Some(b) = unhex(h) else { return "bad-op".into() };
             match ProofInstruction::instruction_type(&b) {
